@@ -158,4 +158,57 @@ theorem inv_wTake (s s' : St) (w : Nat) (hi : Inv s) (h : step s (.wTake w) = so
           have := hi.exec_le u; rw [htq] at this; simpa using this
         · rw [upd_other _ _ _ _ hu, upd_other _ _ _ _ hu]; exact hi.exec_le u
   · simp at h
+
+def owesNotify : CPc → Bool
+  | .pushed _ _ => true
+  | .stopSet => true
+  | _ => false
+
+def active : WPc → Bool
+  | .ready => true
+  | .running _ => true
+  | _ => false
+
+/-- J: work pending or stop requested ⇒ somebody will react -/
+def J (s : St) : Prop :=
+  (s.queue ≠ [] ∨ s.stop = true) →
+    (∃ w, w < s.nw ∧ active (s.wpc w) = true) ∨ (∃ c, owesNotify (s.cpc c) = true) ∨ (∀ w, w < s.nw → s.wpc w = .exited)
+
+/-- K: nobody exits before stop -/
+def K (s : St) : Prop := s.stop = false → ∀ w, w < s.nw → s.wpc w ≠ .exited
+
+theorem J_wSleep (s s' : St) (w : Nat) (h : step s (.wSleep w) = some s') : J s' := by
+  simp only [step] at h
+  split at h
+  · rename_i hc
+    obtain ⟨_, _, hstop, hq⟩ := hc
+    simp only [Option.some.injEq] at h; subst h
+    intro hprem
+    simp only at hprem
+    rcases hprem with h1 | h1
+    · exact absurd hq h1
+    · rw [hstop] at h1; cases h1
+  · simp at h
+
+theorem J_cNotify_all (s s' : St) (c : Nat) (ts : List Nat) (hnw : 0 < s.nw) (hK : K s)
+    (hpc : s.cpc c = .pushed ts true) (h : step s (.cNotify c none) = some s') : J s' := by
+  simp only [step, hpc] at h
+  simp only [if_true, Option.some.injEq] at h
+  subst h
+  intro _
+  simp only
+  -- every worker is, after notify_all, ready / running / exited
+  by_cases hall : ∀ w, w < s.nw → s.wpc w = .exited
+  · right; right
+    intro w hw
+    rw [hall w hw]; simp
+  · left
+    obtain ⟨w, hw⟩ := Classical.not_forall.mp hall
+    obtain ⟨hwlt, hne⟩ := Classical.not_imp.mp hw
+    refine ⟨w, hwlt, ?_⟩
+    cases hpcw : s.wpc w with
+    | ready => simp [active]
+    | sleeping => simp [active]
+    | running t => simp [active]
+    | exited => exact absurd hpcw hne
 end Pool
